@@ -338,7 +338,7 @@ ApplyEffects(m0, op, ret) ==
       [] n = "eadd" ->
             IF ret = 1
             THEN LET m1 == IF op[3] \in m.aliveE THEN [m EXCEPT !.elocal = Put(@, op[3], op[4])] ELSE m
-                 IN AddReg(m1, EWSys(m), << <<"emut", op[3], 1>>, <<"eev", op[3], 1>> >>, FALSE)
+                 IN AddReg(m1, EWSys(m), << <<"emut", op[3], 1>>, <<"eev", op[3], 1>>, <<"erem", op[3], 1>> >>, FALSE)
             ELSE m
       [] n = "erem" ->
             IF ret = 1
@@ -397,6 +397,14 @@ BagEqAlive(m, a, b) == \A s \in m.alive : CountEq(a, s) = CountEq(b, s)
 BagLeAlive(m, a, b) == \A s \in m.alive : CountEq(a, s) <= CountEq(b, s)
 SysOf(regs) == [ i \in DOMAIN regs |-> regs[i].s ]
 
+(* a removal / despawn reaction scheduled for a living reactor that has no matching registration (any more): when the key was *)
+(* revoked that is C06, when the reactor is a one-off reactor that is C15 ("revoked before any trigger fires it never runs") *)
+PolledSurplus(m, o, want) ==
+    LET extra == { s \in m.alive : CountEq(o.reactors, s) > CountEq(want, s) }
+        rev == \E s \in extra : \E rv \in m.revoked : rv[1] = s /\ Matches([kd |-> rv[2], ty |-> rv[3], e |-> rv[4]], o.trig, o.ty, o.ent)
+        m1 == IF rev THEN V(m, "C06", "a revoked registration was scheduled") ELSE m
+    IN IF \E s \in extra : s \in m.once THEN V(m1, "C15", "a one-off reactor was scheduled by a trigger it no longer has") ELSE m1
+
 OnSched(m, o) ==
     LET t == Top(m)
         inop == t.f = "op"
@@ -447,14 +455,14 @@ OnSched(m, o) ==
                  thr == SysOf(SelectSeq(m.reg, LAMBDA x : x.id \in pr.then /\ Matches(x, "rem", o.ty, o.ent)))
                  m2 == Chk(m1, BagLeAlive(m, thr, o.reactors), "C08", "a removal reactor registered throughout was not scheduled")
                  m3 == Chk(m2, BagLeAlive(m, o.reactors, want), "C08", "a reactor without a live removal registration was scheduled")
-             IN [m3 EXCEPT !.pendRem = RemoveAt(@, idx), !.owed = @ \o owe]
+             IN [PolledSurplus(m3, o, want) EXCEPT !.pendRem = RemoveAt(@, idx), !.owed = @ \o owe]
     ELSE IF o.trig = "desp"
     THEN
         LET idx == FirstIdx(m.pendDesp, LAMBDA x : x.e = o.ent)
             m1 == Chk(m0, t.f = "poll", "C08", "despawn reaction scheduled outside a poll")
             m2 == IF idx = 0 THEN V(m1, "C08", "despawn reaction for an entity that is alive or was already reported")
                   ELSE [m1 EXCEPT !.pendDesp = RemoveAt(@, idx)]
-            m3 == Chk(m2, BagEqAlive(m, o.reactors, want), "C08", "despawn reactors scheduled do not match the registrations")
+            m3 == PolledSurplus(Chk(m2, BagEqAlive(m, o.reactors, want), "C08", "despawn reactors scheduled do not match the registrations"), o, want)
             taken == SelectSeq(m.reg, LAMBDA x : x.kd = "desp" /\ x.e = o.ent)
             newpdr == [ i \in DOMAIN taken |-> [s |-> taken[i].s, e |-> o.ent, h |-> taken[i].h] ]
         IN [m3 EXCEPT !.reg = SelectSeq(@, LAMBDA x : ~(x.kd = "desp" /\ x.e = o.ent)),
@@ -594,7 +602,7 @@ OnRun(m, o) ==
         m8 == IF isEW /\ c.kind \in {"eev", "ereact"}
               THEN IF c.e \notin m.aliveE
                    THEN V2(m7, "C16", "C18", F2Why)
-                   ELSE Chk(m7, o.el = <<c.e, Get(m.elocal, c.e, 0)>>, "C16", "entity world reactor saw the wrong local data")
+                   ELSE Chk(m7, o.el = <<c.e, Get(m.elocal, c.e, 0)>>, "C16", IF tainted THEN F1Why ELSE "entity world reactor saw the wrong local data")
               ELSE m7
     IN m8
 
@@ -753,7 +761,10 @@ OnQuiesce(m, o) ==
         tabok == \A k \in tkeys : k[4] \in m.alive => tcount(k) = rcount(k)
         m10a == IF tabok THEN m9 ELSE V(IF m.anyrev THEN V(m9, "C06", "registration tables differ from registrations minus revocations") ELSE m9,
                                        "C01", "registration tables differ from registrations minus revocations")
-        m10 == IF ~tabok /\ m.deadop THEN V(m10a, "C18", "registration tables are wrong after a register / revoke operation that named a despawned entity") ELSE m10a
+        wsys == (m.nsys + m.nonce + 1)..(m.nsys + m.nonce + m.nworld + m.neworld)
+        wtabok == \A k \in tkeys : k[4] \in wsys => tcount(k) = rcount(k)
+        m10b == IF ~wtabok THEN V(m10a, "C16", "registrations of a world reactor differ from the triggers added minus those removed") ELSE m10a
+        m10 == IF ~tabok /\ m.deadop THEN V(m10b, "C18", "registration tables are wrong after a register / revoke operation that named a despawned entity") ELSE m10b
         \* one-off reactors
         oncebad == \E s \in m.onceRan : s \in Elems(o.alive_sys) \/ (\E x \in Elems(o.tables) : x[4] = s)
         m11 == Chk(m10, ~oncebad, "C15", "a one-off reactor or one of its triggers survived its run")
